@@ -83,25 +83,41 @@ pub fn check_system(sys: &Sys, with_subsets: bool) -> CaseOut {
 /// outside the solver's documented tolerance regime)
 pub fn check_system_opt(sys: &Sys, with_subsets: bool, with_lp: bool) -> CaseOut {
     let mut out = CaseOut::default();
-    let n = sys.n;
     let poly = sys.poly();
-    let inp = sys.rows_q();
-    let rec = |op: &str, res: Option<&Rows>| json!({"n": n, "rows_A_b": sys.rows, "operation": op, "result_rows": res.map(|r| r.iter().map(|(a, b)| json!({"a": crate::q::fmt_vec(a), "b": b.to_string()})).collect::<Vec<_>>())});
-    let input_empty = is_empty(n, &inp);
     out.add("systems", 1);
     out.add("systems_nontrivial", (sys.rows.len() >= 2) as u64);
+    let firsts = check_poly(sys, &poly, "", with_subsets, with_lp, &mut out);
+    // sequences of two clean-up calls: every result of the first call (other than normalize, whose rounded rows
+    // remove_duplicate_rows merges by design) is itself an input
+    for (name, p1) in &firsts {
+        out.add("chained_inputs", 1);
+        check_poly(sys, p1, &format!("{name} then "), false, with_lp, &mut out);
+    }
+    out
+}
+
+/// all clean-up functions on one polytope, judged against that polytope's own rows; returns the results
+fn check_poly(sys: &Sys, poly: &Polytope, prefix: &str, with_subsets: bool, with_lp: bool, out: &mut CaseOut) -> Vec<(&'static str, Polytope)> {
+    let n = sys.n;
+    let inp = rows_of(poly);
+    let mut results: Vec<(&'static str, Polytope)> = vec![];
+    let rec = |op: &str, res: Option<&Rows>| json!({"n": n, "rows_A_b": sys.rows, "operation": format!("{prefix}{op}"), "result_rows": res.map(|r| r.iter().map(|(a, b)| json!({"a": crate::q::fmt_vec(a), "b": b.to_string()})).collect::<Vec<_>>())});
+    let input_empty = is_empty(n, &inp);
     let mut generic = |out: &mut CaseOut, name: &'static str, res: Result<Polytope, String>, allow_scale: bool| -> Option<Rows> {
         out.add("evaluations", 1);
         let p = match res {
             Err(m) => {
-                out.violate(Violation::new(format!("{name} panicked: {m}"), rec(name, None)).tag("call", name).tag("kind", "panic"));
+                out.violate(Violation::new(format!("{prefix}{name} panicked: {m}"), rec(name, None)).tag("call", name).tag("kind", "panic"));
                 return None;
             }
             Ok(p) => p,
         };
+        if !allow_scale {
+            results.push((name, p.clone()));
+        }
         let r = rows_of(&p);
         if r.iter().any(|(a, _)| a.len() != n) {
-            out.violate(Violation::new(format!("{name} changed the dimension"), rec(name, Some(&r))).tag("call", name).tag("kind", "dimension"));
+            out.violate(Violation::new(format!("{prefix}{name} changed the dimension"), rec(name, Some(&r))).tag("call", name).tag("kind", "dimension"));
             return None;
         }
         // (1) only drops rows
@@ -141,7 +157,7 @@ pub fn check_system_opt(sys: &Sys, with_subsets: bool, with_lp: bool) -> CaseOut
             _ => false,
         };
         if !sub_ok && !ph_ok {
-            out.violate(Violation::new(format!("{name}: result is not a subsequence of the input rows"), rec(name, Some(&r))).tag("call", name).tag("kind", "not_subsequence"));
+            out.violate(Violation::new(format!("{prefix}{name}: result is not a subsequence of the input rows"), rec(name, Some(&r))).tag("call", name).tag("kind", "not_subsequence"));
         }
         // (2) same point set
         let same = if allow_scale {
@@ -155,14 +171,14 @@ pub fn check_system_opt(sys: &Sys, with_subsets: bool, with_lp: bool) -> CaseOut
         };
         if !same {
             let dir = if subset(n, &inp, &r) { "grew" } else if subset(n, &r, &inp) { "shrank" } else { "incomparable" };
-            out.violate(Violation::new(format!("{name}: the point set {dir}"), rec(name, Some(&r))).tag("call", name).tag("kind", "set_changed").tag("how", dir));
+            out.violate(Violation::new(format!("{prefix}{name}: the point set {dir}"), rec(name, Some(&r))).tag("call", name).tag("kind", "set_changed").tag("how", dir));
         }
         Some(r)
     };
-    generic(&mut out, "remove_tautologies", catch(|| poly.remove_tautologies()), false);
-    generic(&mut out, "remove_duplicate_rows", catch(|| poly.remove_duplicate_rows()), false);
-    generic(&mut out, "remove_zero_rows", catch(|| poly.remove_zero_rows()), false);
-    generic(&mut out, "normalize", catch(|| poly.clone().normalize()), true);
+    generic(out, "remove_tautologies", catch(|| poly.remove_tautologies()), false);
+    generic(out, "remove_duplicate_rows", catch(|| poly.remove_duplicate_rows()), false);
+    generic(out, "remove_zero_rows", catch(|| poly.remove_zero_rows()), false);
+    generic(out, "normalize", catch(|| poly.clone().normalize()), true);
     // normalize: rows with non-negligible norm have unit norm afterwards (f64 tolerance)
     if let Ok(pn) = catch(|| poly.clone().normalize()) {
         for (i, r) in pn.mat.outer_iter().enumerate() {
@@ -184,7 +200,7 @@ pub fn check_system_opt(sys: &Sys, with_subsets: bool, with_lp: bool) -> CaseOut
         Err(m) => Err(m),
     };
     if let Ok(_) = &rr {
-        if let Some(r) = generic(&mut out, "remove_redundant_row_constraints", rr.clone().map_err(|e| e), false) {
+        if let Some(r) = generic(out, "remove_redundant_row_constraints", rr.clone().map_err(|e| e), false) {
             if is_placeholder(n, &r).is_none() || r.len() > 1 {
                 // (3) no remaining row implied by the others with a margin
                 for i in 0..r.len() {
@@ -244,7 +260,14 @@ pub fn check_system_opt(sys: &Sys, with_subsets: bool, with_lp: bool) -> CaseOut
         }
     }
     let _ = dot;
-    out
+    drop(generic);
+    if with_subsets && !inp.is_empty() {
+        // the polytope without any row (the whole space) as produced by remove_rows
+        if let Ok(p) = catch(|| poly.remove_rows((0..inp.len()).collect::<Vec<_>>())) {
+            results.push(("remove_rows(all)", p));
+        }
+    }
+    results
 }
 
 pub fn grid(tier: Tier) -> Vec<Sys> {
@@ -320,6 +343,16 @@ pub fn run(tier: Tier) -> Report {
         .filter(|s| s.rows.iter().any(|(a, b)| a.iter().any(|v| v.abs() == tiny) || (*b == 0.0 && b.is_sign_negative())))
         .filter(|s| s.rows.iter().all(|(a, _)| !(a.iter().any(|v| v.abs() == tiny) && a.iter().any(|v| v.abs() == 1.0))))
         .collect();
+    let mut gt = gt;
+    // rows that are tiny as a whole, bias included: tiny*x <= +-tiny is x <= +-1, 0 <= -tiny is infeasible
+    for m in 1..=2 {
+        gt.extend(systems(1, m, &[0.0, tiny, -tiny], &[-tiny, 0.0, tiny]));
+    }
+    for (i, s) in systems(2, 2, &[0.0, tiny, -tiny], &[-tiny, tiny]).into_iter().enumerate() {
+        if i % 2 == 0 {
+            gt.push(s);
+        }
+    }
     rep.set("systems_with_tiny_coefficients", gt.len() as u64);
     let t2 = par_cases(&gt, |_, s| check_system_opt(s, true, false));
     rep.absorb(t2);
@@ -340,6 +373,10 @@ pub fn run(tier: Tier) -> Report {
         }
     }
     rep.set("systems_with_nearly_coincident_rows", gn.len() as u64);
+    // systems without any row (the whole space)
+    for n in 1..=3 {
+        gn.push(Sys { n, rows: vec![] });
+    }
     let t3 = par_cases(&gn, |_, s| check_system_opt(s, true, true));
     rep.absorb(t3);
     rep.set("systems_total", g.len() as u64);
